@@ -8,6 +8,7 @@ import json
 from vlib import *
 
 
+THOROUGH_ROUNDS = 25      # repetitions of the conformance part in the thorough tier (fresh random draws each)
 def gen(rng, quick, forced=None):
     ops = [{"op": "info"}]
     if forced:
